@@ -530,6 +530,11 @@ def r4_time_lower_bounds(ctx: Context, rule: str = "C10.R4") -> None:
         cn = g.node_of(creates[0])
         want = lin.formula(ast.parse("start_time < task.release_time", mode="eval").body)
         ok = any(t.kind == "test" and lin.equivalent(lin.formula(t.ast), want) and g.edge_dominates(t, "F", cn) for t in g.nodes)
+        if not ok:
+            # the same as part of a larger test: what holds on every path to the creation implies `not (start < release)`
+            ctl = [lin.formula(t.ast) if pol == "T" else lin.f_not(lin.formula(t.ast)) for t in g.nodes if t.kind == "test"
+                   for pol in ("T", "F") if g.edge_dominates(t, pol, cn)]
+            ok = bool(ctl) and lin.entails(("and", ctl), lin.f_not(want))
         ctx.check(ok, rule, f"{rel}::TaskOptimizerVariables|no decision variable before the release time", loc(creates[0]), "start < release -> constant 0",
                   "a cell before the task's release time is a decision variable")
         keys = [a for a in ast.walk(init) if isinstance(a, ast.Assign) and isinstance(a.value, ast.DictComp) and is_self_attr(a.targets[0], "_space_time_strategy_matrix")]
